@@ -147,6 +147,8 @@ pub fn name_pool() -> Vec<&'static str> {
     vec![
         "", "7", "+7", "007", "+007", "-0", "-7", " 7", "7 ", "７", "٣", "1e3", "0x10", "1_000", "++7", "+", "-", "abc", "a b", "18446744073709551615", "18446744073709551616", "+18446744073709551615",
         "0000000000000000000000000000000000000007", "9999999999999999999999999999999999999999", "0", "+0", "1.0", "🔥", "_", "$x",
+        // names that look like they carry a surface prefix / padding: must be stored verbatim
+        "^left", "^", "^^x", "#x", "?x", "+x", "_x", "-x", "x-", " x", "x ", "\t", "a\nb", "\\$x", "任一x", "操作x", "某", "\\Uparrow{}x", "<a --> b>", "a.b", "%1%",
     ]
 }
 
@@ -158,6 +160,7 @@ pub fn strategy() -> BoxedStrategy<Case> {
         15 => "\\PC{0,6}",
         15 => vec(select("0123456789".chars().collect::<Vec<_>>()), 1..=24).prop_map(|v| v.into_iter().collect::<String>()),
         10 => gen::name(0, gen::NameProfile::Main),
+        10 => (select(vec!["^", "$", "#", "?", "+", "_", "-", " ", "任一", "操作", "\\$", "\\Uparrow{}"]), gen::name(0, gen::NameProfile::Main)).prop_map(|(p, n)| format!("{p}{n}")),
     ];
     (root, 0u8..2, nm, vec(gen::term(gen::TermOpts { depth: 1, size: 4, ..o }), 0..=3), any::<u8>())
         .prop_map(|(d, how, new_name, mut extra, dup)| {
